@@ -280,10 +280,9 @@ def signature(ev, clause, prev):
     if clause in ('read-fresh', 'read-layout', 'read-scaled-once', 'read-length'):
         # what happened just before the read decides which defect this is
         before = prev['op'] if prev is not None and prev['tid'] == ev['tid'] else 'Snap'
-        extra = ''
         if clause == 'read-scaled-once':
-            extra = ':scaled=%s' % ev['ret'].get('scaled')
-        return 'C07:%s:%s:after-%s%s' % (cls, clause, before, extra)
+            return 'C07:%s:%s:scaled=%s' % (cls, clause, ev['ret'].get('scaled'))
+        return 'C07:%s:%s:after-%s' % (cls, clause, before)
     return 'C07:%s:%s:%s' % (cls, clause, ev['op'])
 
 
